@@ -188,13 +188,13 @@ func (op *c09Op) exec() (res c09Res) {
 		}
 		res.out, res.err = sig, errStr(tok.Err)
 	case opProtoMarshal:
-		b, err := proto.Marshal(op.val.Interface())
+		b, err := proto.Marshal(protoArg(op.val))
 		res.out, res.err = b, errStr(err)
 	case opProtoSize:
-		res.n = proto.Size(op.val.Interface())
+		res.n = proto.Size(protoArg(op.val))
 	case opProtoMarshalTo:
 		b := make([]byte, len(op.input))
-		n, err := proto.MarshalTo(b, op.val.Interface())
+		n, err := proto.MarshalTo(b, protoArg(op.val))
 		res.out, res.err, res.n = b, errStr(err), n
 	case opProtoUnmarshal:
 		x := reflect.New(op.ty.rt)
@@ -307,31 +307,6 @@ func c09Types(t *tape.Tape) []*simType {
 	return out
 }
 
-func typeFlags(rt reflect.Type) string {
-	var f []string
-	seen := map[reflect.Type]bool{}
-	var walk func(t reflect.Type, d int)
-	walk = func(t reflect.Type, d int) {
-		if seen[t] || d > 8 {
-			return
-		}
-		seen[t] = true
-		switch t.Kind() {
-		case reflect.Map:
-			f = append(f, "mapfield")
-			walk(t.Elem(), d+1)
-		case reflect.Ptr, reflect.Slice, reflect.Array:
-			walk(t.Elem(), d+1)
-		case reflect.Struct:
-			for i := 0; i < t.NumField(); i++ {
-				walk(t.Field(i).Type, d+1)
-			}
-		}
-	}
-	walk(rt, 0)
-	return strings.Join(f, " ")
-}
-
 // c09MakeOp draws an operation over ty; encode-side inputs are produced with the
 // library itself during setup (state is reset afterwards).
 func c09MakeOp(t *tape.Tape, ty *simType, pool []*simType) *c09Op {
@@ -386,7 +361,7 @@ func c09MakeOp(t *tape.Tape, ty *simType, pool []*simType) *c09Op {
 			vg.MaxMap = 1
 			op.val = vg.New(ty.rt)
 			if op.kind == opProtoMarshalTo {
-				n := protoSizeSafe(op.val.Interface())
+				n := protoSizeSafe(protoArg(op.val))
 				switch t.Pick(3, 1, 1) {
 				case 1:
 					n += t.Range(1, 8)
@@ -399,7 +374,7 @@ func c09MakeOp(t *tape.Tape, ty *simType, pool []*simType) *c09Op {
 			}
 		case opProtoUnmarshal:
 			op.val = vg.New(ty.rt)
-			b, err := protoMarshalSafe(op.val.Interface())
+			b, err := protoMarshalSafe(protoArg(op.val))
 			if err != nil {
 				b = nil
 			}
